@@ -28,7 +28,8 @@ N_KEYS = {"quick": 150, "thorough": 2000}
 
 def witness_models():
     """Real replicas of the inputs of the Lean witness theorems (Props/C17.lean):
-    `witness_params_not_collected`, `witness_no_reuse` and `witness_many_symbols_per_new_name`."""
+    `witness_params_not_collected`, `witness_no_reuse`, `witness_many_symbols_per_new_name` and
+    `witness_truthy_only_rebuild_loses_facts`."""
     import sympy as sp
 
     from ampform.helicity import HelicityModel
@@ -61,8 +62,19 @@ def witness_models():
         components={"I": a * x},
         reaction_info=reaction,
     )
+    gz = sp.Symbol("g", zero=False)  # a complex coupling declared non-zero: a False-valued fact no True fact implies
+    nonzero_model = HelicityModel(  # Lean: Witness.nonzeroModel
+        intensity=PoolSum(sp.Abs(A[lam]) ** 2, (lam, (0, 1))),
+        amplitudes={A[0]: a * x, A[1]: gz * x * a},
+        parameter_defaults={a: 1 + 0j, gz: 1.0 + 0.5j},
+        kinematic_variables={x: InvariantMass(p0)},
+        components={"I": a * x},
+        reaction_info=reaction,
+    )
     return model, {"collectsParams": (model, {"m_0": "mgamma"}), "reusesExisting": (model, {"a": "d"}),
-                   "oneSymbolPerNewName": (merge_model, {"a": "k", "g": "k"})}
+                   "oneSymbolPerNewName": (merge_model, {"a": "k", "g": "k"}),
+                   # not a variant switch of the model: the input of `witness_truthy_only_rebuild_loses_facts`
+                   "keepsEveryFact": (nonzero_model, {"g": "k"})}
 
 
 def infer_variant(chk) -> tuple[dict, list]:
@@ -85,9 +97,20 @@ def infer_variant(chk) -> tuple[dict, list]:
     r = pm.rename_symbols(ren)
     ks = {s for s in r.expression.free_symbols | set(r.parameter_defaults) if isinstance(s, sp.Symbol) and s.name == "k"}
     variant["oneSymbolPerNewName"] = len(ks) == 1
+    # the new symbol is made from the COMPLETE assumptions0 (the model's `⟨new name, source declaration⟩`)
+    pm, ren = probes["keepsEveryFact"]
+    r = pm.rename_symbols(ren)
+    src = next(s for s in pm.parameter_defaults if s.name == "g")
+    ks = {s for s in r.expression.free_symbols | set(r.parameter_defaults) if isinstance(s, sp.Symbol) and s.name == "k"}
+    keeps = len(ks) == 1 and next(iter(ks)).assumptions0 == src.assumptions0
+    chk.info("new_symbol_made_from_complete_assumptions0", keeps)
+    if not keeps:
+        chk.broken_correspondence("declaration", "the symbol made for a renamed name does not carry the complete assumption "
+                                  f"declaration of its source: {[(str(s), s.assumptions0) for s in ks]} vs {src.assumptions0} "
+                                  "(Lean: witness_truthy_only_rebuild_loses_facts)")
     for switch, (pm, ren) in probes.items():
         fails, _ = oracle.check_case(pm, ren, rng=None, numeric=False)
-        if fails and not variant[switch]:
+        if fails and not variant.get(switch, keeps):
             found.append({"what": f"witness of the Lean theorem for variant switch {switch}=false replays on the real code",
                           "model": f"tools/props/C17.py: witness_models() [{switch}]", "renames": ren, "failed_clauses": fails[:3]})
         elif fails:
@@ -169,7 +192,9 @@ class C17Property:
         chk.assumptions += [
             "names are ASCII, numbers inside names have <= 15 digits, no text chunk of a name parses as a float (inf/nan)",
             "no bound PoolSum index is among the collected symbols (structural xreplace is capture-free)",
-            "assumption sets are numbered in the order of str(sorted(assumptions0.items())) (the second component of the source's sort key)",
+            "a symbol's assumption declaration is its complete assumptions0 dict (all True- and False-valued facts) written as a ternary "
+            "numeral over SymPy's 31 facts; Symbol(name, **assumptions0) is a fixed point (checked per declaration); the numeric order of the "
+            "numerals is the order of str(sorted(assumptions0.items())) (checked on all pairs of declarations of the run)",
         ]
         return chk.finish()
 
@@ -203,9 +228,11 @@ class C17Property:
             models.append((f"synthetic#{i}", sm, "synthetic"))
             i += 1
         chk.info("synthetic_models_rejected_by_generator", rejected)
+        chk.info("synthetic_models_refused_by_sympy", corr.SYNTH_REFUSED[0])
         wm, wprobes = witness_models()
         models.append(("witness", wm, "synthetic"))
         models.append(("witness-merge", wprobes["oneSymbolPerNewName"][0], "synthetic"))
+        models.append(("witness-nonzero", wprobes["keepsEveryFact"][0], "synthetic"))
         chk.info("models", {"real": [(l, describe(m)) for l, m, k in models if k == "real"],
                             "synthetic": sum(1 for _, _, k in models if k == "synthetic")})
 
@@ -220,6 +247,11 @@ class C17Property:
         lines = [f"variant {int(variant['collectsParams'])} {int(variant['reusesExisting'])} {int(variant['oneSymbolPerNewName'])}"]
         sweep = self.start_hash_sweep(tier, seed)
         expect: list[tuple] = [("ok", None)]
+        # the declarations of the run: the model's decoding of each ternary numeral is the complete assumptions0 dict
+        # (True- and False-valued facts), its `truthyOnly` is the numeral of {k: v for k, v in assumptions0.items() if v}
+        for code in sorted(conv.decls):
+            lines.append(f"facts {code}")
+            expect.append(("facts", code))
         # natural_sorting keys
         key_names = set()
         for _, m, _ in models:
@@ -236,6 +268,8 @@ class C17Property:
 
         cases: list[dict] = []
         f1_shaped = [0]
+        decl_cov: dict = {"generators": set(), "steps_renaming_a_symbol_with_underivable_false_facts": 0,
+                          "steps_renaming_a_symbol_with_a_non_library_declaration": 0}
         skipped: dict[str, int] = {}
         kinds_hit: dict[str, int] = {}
 
@@ -250,7 +284,9 @@ class C17Property:
             nseq = SEQ_PER_REAL[tier] if kind == "real" else SEQ_PER_SYNTH[tier]
             seqs = [corr.gen_sequence(rng) for _ in range(nseq)]
             if kind == "real":  # every kind at least once on the real models, as the first step
-                pool = list(dict.fromkeys(corr.KINDS))
+                pool = list(dict.fromkeys(corr.KINDS + corr.DECL_KINDS))
+                if label in corr.DECL_MODEL_LABELS:  # … on the models with every kind of declaration: the maps aimed at those
+                    pool = list(corr.DECL_KINDS)
                 start = rng.randrange(len(pool))
                 for j, s in enumerate(seqs):
                     s[0] = pool[(start + j) % len(pool)]
@@ -284,6 +320,13 @@ class C17Property:
                                 raise corr.Skip("name outside the natural_sorting domain")
                         if corr.fresh_merge_of_different_assumptions(info, rd):
                             f1_shaped[0] += 1
+                        lossy_renamed = [n for n in rd if n in info["lossy"] and rd[n] != n]
+                        for n in lossy_renamed:
+                            for s in info["by_name"][n]:
+                                gens = getattr(s, "_assumptions_orig", None) or s.assumptions0
+                                decl_cov["generators"].add(",".join(f"{k}={'T' if v else 'F'}" for k, v in sorted(gens.items())))
+                        decl_cov["steps_renaming_a_symbol_with_underivable_false_facts"] += bool(lossy_renamed)
+                        decl_cov["steps_renaming_a_symbol_with_a_non_library_declaration"] += any(n in info["decl"] and rd[n] != n for n in rd)
                         real = cur.rename_symbols(ren)
                         add_model(cur)
                         pairs = list(ren.items()) if isinstance(ren, dict) else list(ren)
@@ -295,7 +338,9 @@ class C17Property:
                         self._history.append((f"{label} step {step}", real, oracle_mod.snapshot(real)))
                         kinds_hit[kname] = kinds_hit.get(kname, 0) + 1
                         inv = corr.invertible(info, rd) if kname != "inverse" else None
-                        if inv and len(plan) < 4 and rng.random() < 0.5:  # rename, then rename back (on the same history)
+                        coin = rng.random() < 0.5
+                        # rename, then rename back (on the same history): always when a symbol with a non-library declaration moved
+                        if inv and len(plan) < 4 and (coin or any(n in info["decl"] for n in rd)):
                             plan.insert(step + 1, ("inverse", inv, len(cases) - 1))
                         cur = real
                         step += 1
@@ -324,6 +369,15 @@ class C17Property:
                 if outs[pos] != "ok":
                     raise common.LeanRunError(f"expected ok, got {outs[pos][:200]!r}")
                 pos += 1
+            elif kind == "facts":
+                chk.count()
+                a0 = conv.decls[payload]
+                idx = {f: i for i, f in enumerate(corr.fact_universe())}
+                want = "facts " + " ".join(f"{idx[f]}:{int(v)}" for f, v in sorted(a0.items(), key=lambda kv: idx[kv[0]])) \
+                    + f" | {corr.enc_decl(corr.truthy_only(a0))}"
+                if " ".join(outs[pos].split()) != " ".join(want.split()):
+                    mismatches.append({"declaration": a0, "lean": outs[pos], "expected": want})
+                pos += 1
             elif kind == "key":
                 n_key += 1
                 chk.count()
@@ -344,10 +398,10 @@ class C17Property:
                 n_cmp += 1
                 # free symbols of the derived `expression`: equality when every symbol keeps its assumptions and
                 # nothing is merged, inclusion otherwise (SymPy may cancel or simplify by assumptions)
-                asm_ok = all(conv.asms[int(a.rsplit("/", 1)[1])] == conv.asms[int(b.rsplit("/", 1)[1])] for a, b in reply.mapping)
+                asm_ok = all(a.rsplit("/", 1)[1] == b.rsplit("/", 1)[1] for a, b in reply.mapping)  # complete declarations equal
                 images = dict(reply.mapping)
                 injective = len({images.get(sy, sy) for sy in reply.collect}) == len(set(reply.collect))
-                diffs = corr.compare(conv, case["after"], reply, with_expression=asm_ok and injective)
+                diffs = corr.compare(conv, case["after"], reply, with_expression=asm_ok and injective, expression_inclusion=asm_ok)
                 # what the model collects = what the real __collect_symbols collects
                 collect_real = getattr(case["before"], "_HelicityModel__collect_symbols", None)
                 if collect_real is not None and dict(case["renames"]):
@@ -369,12 +423,22 @@ class C17Property:
                                 "model_map": [(corr.dec_name(a.rsplit("/", 1)[0]), corr.dec_name(b.rsplit("/", 1)[0])) for a, b in reply.mapping][:6],
                                 "parameter_keys_after": [str(k) for k in case["after"].parameter_defaults][:8]})
         for mm in mismatches[:3]:
-            chk.broken_correspondence("rename" if "model" in mm else "natural_sorting", mm)
+            chk.broken_correspondence("rename" if "model" in mm else "declaration" if "declaration" in mm else "natural_sorting", mm)
+        disagree = conv.order_disagreements_now()
+        if disagree:
+            chk.broken_correspondence("declaration order", {"what": "the numeric order of the ternary declarations is not the order of "
+                                                            "str(sorted(assumptions0.items()))", "pairs": disagree[:3]})
+        decl_cov["generators"] = sorted(decl_cov["generators"])
+        decl_cov["distinct_declarations"] = len(conv.decls)
+        decl_cov["declarations_with_underivable_false_facts"] = sum(
+            1 for a0 in conv.decls.values() if sp.Symbol("x", **corr.truthy_only(a0)).assumptions0 != a0)
+        decl_cov["declaration_order_pairs_checked"] = len(conv.decls) ** 2
+        chk.info("assumption_declarations", decl_cov)
         chk.info("correspondence", {"rename_steps_compared": n_cmp, "mismatches": len(mismatches), "natural_sorting_keys": n_key,
                                     "echo_round_trips": n_echo, "map_kinds": kinds_hit, "skipped": skipped,
                                     "merges_of_different_assumptions_onto_a_fresh_name": f1_shaped[0],
                                     "steps_with_renamed_symbols": sum(1 for c in cases if c.get("renamed_by_model")),
-                                    "node_classes": sorted(conv.cls_ids), "assumption_sets": len(conv.asms)})
+                                    "node_classes": sorted(conv.cls_ids), "assumption_sets": len(conv.decls)})
         found += self.finish_hash_sweep(chk, sweep)
         return cases, found
 
@@ -502,7 +566,7 @@ class C17Property:
         reaction = corr.load_reaction("d0_kkk_can")
         models += [(f"synthetic#{i}", corr.synthetic_model(rng, reaction, i), "synthetic") for i in range(60)]
         for label, m, kind in models:
-            for kname in corr.KINDS:
+            for kname in corr.KINDS + corr.DECL_KINDS:
                 ren = corr.gen_map(rng, corr.model_info(m), kname)
                 pairs = list(ren.items()) if isinstance(ren, dict) else list(ren)
                 cases.append({"model": label, "kind": kind, "step": 0, "map_kind": kname, "renames": pairs, "before": m})
@@ -546,6 +610,7 @@ def replay(rep: dict) -> int:
     for switch, (pm, _) in wprobes.items():
         models[f"tools/props/C17.py: witness_models() [{switch}]"] = pm
     models["witness-merge"] = wprobes["oneSymbolPerNewName"][0]
+    models["witness-nonzero"] = wprobes["keepsEveryFact"][0]
     if label in models and renames is not None and inp.get("step", 0) == 0:
         ren = renames if isinstance(renames, dict) else [tuple(p) for p in renames]
         fails, facts = oracle.check_case(models[label], ren, rng=common.rng_for(PROP_ID, 0, "replay"))
